@@ -567,6 +567,8 @@ func (x *c03) replay(path string) {
 			}
 		case "gated":
 			x.gatedIntact()
+		case "closebehind":
+			x.closeBehindSend()
 		case "tcp":
 			stream := hx.Unhx(kv(f, "stream"))
 			lim := int64(hx.Atoi(kv(f, "lim")))
